@@ -585,7 +585,8 @@ func parseType(ctx context.Context, t *parser.Type, tree *parser.Thrift, cache c
 		return ty, err
 	default:
 		// check the cache
-		if ty, ok := cache[t.Name]; ok && ty.parseTarget == parseTarget {
+		// NOTICE: the same type name may be declared by several files
+		if ty, ok := cache[tree.Filename+"|"+t.Name]; ok && ty.parseTarget == parseTarget {
 			return ty.desc, nil
 		}
 
@@ -668,7 +669,7 @@ func parseType(ctx context.Context, t *parser.Type, tree *parser.Thrift, cache c
 			}
 		}
 		if st := ty.Struct(); st != nil {
-			cache[t.Name] = &compilingInstance{parseTarget: parseTarget, desc: ty}
+			cache[tree.Filename+"|"+t.Name] = &compilingInstance{parseTarget: parseTarget, desc: ty}
 		}
 
 		// parse fields
@@ -685,7 +686,7 @@ func parseType(ctx context.Context, t *parser.Type, tree *parser.Thrift, cache c
 			}
 			// cannot cache the request base
 			if isRequestBase {
-				delete(cache, t.Name)
+				delete(cache, tree.Filename+"|"+t.Name)
 			}
 			if isRequestBase || isResponseBase {
 				ty.struc.baseID = FieldID(field.ID)
